@@ -433,8 +433,9 @@ class ThreadPool(object):
                 # Queue is now empty
                 pass
 
-            # Wait for the tasks currently executed
-            self.join()
+        # Wait for the tasks currently executed (outside the lock, as a
+        # running task might need it)
+        self.join()
 
     def join(self, timeout=None):
         """
@@ -443,8 +444,9 @@ class ThreadPool(object):
         :param timeout: Maximum time to wait (in seconds)
         :return: True if the queue has been emptied, else False
         """
-        if self._queue.empty():
-            # Nothing to wait for...
+        if not self._queue.unfinished_tasks:
+            # Nothing to wait for: all queued tasks have been executed
+            # (an empty queue doesn't mean that its tasks are done)
             return True
         elif timeout is None:
             # Use the original join
